@@ -61,6 +61,36 @@ func main() {
 			if len(c.Pool) == 0 {
 				continue
 			}
+			// now and then a wide node: some sixty childless leaves under one parent (the tree switches to another edge
+			// search above fifty edges), all committed; the program removes, updates and adds leaves under that parent
+			if i == 0 && batch%8 == 0 {
+				const alphabet = "abcdefghijklmnopqrstuvwxyzABCDEFGHIJKLMNOPQRSTUVWXYZ0123456789"
+				c.Methods = hist.MethodPool[:1]
+				c.Pool = nil
+				wide := 52 + r.IntN(10)
+				for b := 0; b < wide; b++ {
+					c.Pool = append(c.Pool, "/w/"+alphabet[b:b+1])
+				}
+				for _, p := range c.Pool {
+					c.Ops = append(c.Ops, hist.Op{Kind: "handle", Method: c.Methods[0], Pattern: p})
+				}
+				c.Pool = append(c.Pool, "/w/~", "/w/{p}", "/w/a/x")
+				c.Setup = len(c.Ops)
+				for k := 0; k < 5; k++ {
+					p := c.Pool[r.IntN(wide)]
+					switch r.IntN(4) {
+					case 0:
+						c.Ops = append(c.Ops, hist.Op{Kind: "update", Method: c.Methods[0], Pattern: p})
+					case 1:
+						c.Ops = append(c.Ops, hist.Op{Kind: "handle", Method: c.Methods[0], Pattern: c.Pool[wide+r.IntN(3)]})
+					default:
+						c.Ops = append(c.Ops, hist.Op{Kind: "delete", Method: c.Methods[0], Pattern: p})
+					}
+				}
+				run.Count("wide_node_cases", 1)
+				check(run, c)
+				continue
+			}
 			// six kinds of (setup, program), each a sixth of the cases
 			switch i % 6 {
 			case 1, 4:
@@ -92,9 +122,80 @@ func main() {
 		}
 	})
 	run.SetExtra("fault_enumeration", "every prefix length k in 0..n of every transaction program x every ending in "+strings.Join(endings, ", ")+": enumerated completely for the generated programs")
+	helperPanics(run)
 	if run.Mode() == "race" || run.Thorough() {
 		concurrent(run)
 	}
+}
+
+// helperPanics: Router.Handle, Router.Update and their Txn counterparts run caller code while they build the route
+// (the factories of the route's middleware): a panic there ends the one-operation transaction like a panic ends a
+// managed one - nothing of it is visible, and the next write is admitted.
+func helperPanics(run *kit.Run) {
+	boom := fox.WithMiddleware(func(next fox.HandlerFunc) fox.HandlerFunc { panic("verif: middleware factory panics") })
+	h := func(fox.Context) {}
+	type helper struct {
+		name string
+		do   func(f *fox.Router)
+	}
+	helpers := []helper{
+		{"Router.Handle", func(f *fox.Router) { _, _ = f.Handle("GET", "/hp/new/{id}", h, boom) }},
+		{"Router.Update", func(f *fox.Router) { _, _ = f.Update("GET", "/hp/old/{id}", h, boom) }},
+		{"Router.Handle after another option", func(f *fox.Router) {
+			_, _ = f.Handle("GET", "/hp/new/{id}", h, fox.WithAnnotation("k", 1), boom)
+		}},
+		{"Txn.Handle inside Updates", func(f *fox.Router) {
+			_ = f.Updates(func(txn *fox.Txn) error {
+				_, _ = txn.Handle("GET", "/hp/first", h)
+				_, _ = txn.Handle("GET", "/hp/new/{id}", h, boom)
+				return nil
+			})
+		}},
+		{"Txn.Update inside Updates", func(f *fox.Router) {
+			_ = f.Updates(func(txn *fox.Txn) error {
+				_, _ = txn.Delete("GET", "/hp/keep")
+				_, _ = txn.Update("GET", "/hp/old/{id}", h, boom)
+				return nil
+			})
+		}},
+		{"Router.NewRoute (no transaction at all)", func(f *fox.Router) { _, _ = f.NewRoute("/hp/new/{id}", h, boom) }},
+	}
+	for _, hp := range helpers {
+		id := "helper-panic|" + hp.name
+		run.Case(id, true)
+		f, err := fox.New()
+		if err != nil {
+			run.Inconclusive("fox.New: %v", err)
+			return
+		}
+		old, _ := f.Handle("GET", "/hp/old/{id}", h)
+		keep, _ := f.Handle("GET", "/hp/keep", h)
+		before := fox.VerifFingerprint(f.Iter())
+		var escaped any
+		func() {
+			defer func() { escaped = recover() }()
+			hp.do(f)
+		}()
+		if escaped == nil {
+			run.Violate(id+"|swallowed", fmt.Sprintf("%s: the panic raised by the middleware factory did not reach the caller", hp.name), nil)
+		}
+		if got := fox.VerifFingerprint(f.Iter()); got != before || f.Route("GET", "/hp/old/{id}") != old || f.Route("GET", "/hp/keep") != keep || f.Has("GET", "/hp/new/{id}") || f.Has("GET", "/hp/first") || f.Len() != 2 {
+			run.Violate(id+"|visible", fmt.Sprintf("%s panicked while building the route, yet the router changed (Len()=%d)", hp.name, f.Len()), nil)
+		}
+		ok := kit.Completes(20*time.Second, func() { _, _ = f.Handle("GET", "/hp/after", h) })
+		if !ok {
+			if g := kit.BlockedOnMutex(kit.AllStacks(), "txnWith", "(*Router).Handle"); g != "" {
+				run.Violate(id+"|lock-held", fmt.Sprintf("after %s panicked while building the route, a new write is not admitted: writer blocked on the router mutex\n%s", hp.name, kit.TrimStack(g)), nil)
+			} else {
+				run.Inconclusive("write after %s did not finish within the watchdog but no goroutine is parked on the router mutex", hp.name)
+			}
+			continue
+		}
+		if !f.Has("GET", "/hp/after") {
+			run.Violate(id+"|later-write-lost", fmt.Sprintf("the write made after %s panicked is not published", hp.name), nil)
+		}
+	}
+	run.Count("helper_panic_experiments", int64(len(helpers)))
 }
 
 type marker struct{ s string }
@@ -597,7 +698,10 @@ func queuedWrites(run *kit.Run) {
 				}
 				return ""
 			}},
-		{"Router.Update", func(f *fox.Router) error { _, err := f.Update("GET", "/old/b", h, fox.WithAnnotation("queued", 1)); return err },
+		{"Router.Update", func(f *fox.Router) error {
+			_, err := f.Update("GET", "/old/b", h, fox.WithAnnotation("queued", 1))
+			return err
+		},
 			func(f *fox.Router) string {
 				if r := f.Route("GET", "/old/b"); r == nil || r.Annotation("queued") != 1 {
 					return "the queued Update is missing"
